@@ -144,7 +144,7 @@ class ValueGen:
             if t.kind == "fixed":
                 shape = tuple(t.shape)
             else:
-                rank = t.rank if t.rank is not None else r.choice([1, 1, 2, 3])
+                rank = t.rank if t.rank is not None else r.choice([1, 1, 2, 3, 0])   # a dynamic array of rank 0 holds one element
                 shape = tuple(r.choice([0, 1, 2, 3]) if depth > 1 else r.choice([0, 1, 2, 3, 5]) for _ in range(rank))
             return (shape, [self.gen(t.item, depth + 1) for _ in range(math.prod(shape))])
         if isinstance(t, M):
